@@ -8,6 +8,7 @@
    [wf h]: every step of a session lies between its Start and its End. *)
 From Moc Require Import Base Prom PromProofs.
 Open Scope Z_scope.
+Import Coq.Strings.String.StringSyntax.
 
 (** a well-formed history never panics (no write to a nil inner map) *)
 Theorem C19_no_panic : forall h, wf h -> exists st, run h = POk st.
